@@ -2,6 +2,7 @@ package variable
 
 import (
 	"fmt"
+	"net/netip"
 	"strconv"
 	"time"
 
@@ -520,4 +521,13 @@ func SetWafVariables(ctx *context.Context, name, operator string, val value.Valu
 		))
 	}
 	return false, nil
+}
+
+// parseRemoteAddr parses the client address of the request.
+// http.Request.RemoteAddr is normally "IP:port", so the port must be split off first.
+func parseRemoteAddr(remoteAddr string) (netip.Addr, error) {
+	if ap, err := netip.ParseAddrPort(remoteAddr); err == nil {
+		return ap.Addr(), nil
+	}
+	return netip.ParseAddr(remoteAddr)
 }
